@@ -190,10 +190,53 @@ reg("C03", ["c03_blockread.c"],
          "iterations judged.",
     assumptions=["ranges that wrap past 2^32 are not generated (semantics unstated)"])
 
+reg("C04", ["c04_init.c"],
+    rule="descriptions = " + RT_FAMILY + "; 30% are kept well-formed, the others get one or two seeded mutations from: "
+         "no areas, two areas swapped, equal bases, overlap by one word, exact adjacency, a register straddling its "
+         "area's end, a register moved anywhere from two words below the first area to two beyond the last (holes, "
+         "gaps), duplicate address, two registers swapped, overlap by one word, default just outside the constraint or "
+         "a non-finite float default, no registers at all, default loading of an area switched (skip-defaults, no "
+         "write callback). 128 units x 2500 descriptions (quick), 1200 x 20000 (thorough). A signature is the hash of "
+         "a description; evaluations counts descriptions initialised and judged.",
+    assumptions=["the statement orders the rules, the code interleaves them per index within a stage (area order/overlap, "
+                 "register order/overlap, register placement/default): the first violation in rule-major order and the "
+                 "first in stage-wise index-major order are both accepted"])
+
+reg("C05", ["c05_history.c"],
+    rule="'history': " + RT_FAMILY + " with at least one register (every second unit without always-fail registers, "
+         "those also use sanitise); content loaded with constraint-satisfying values; 50-400 seeded steps of typed "
+         "set (operands biased to bound, bound +-1, default; 1/8 wrong type; NaN/inf), bit set / bit clear (single-bit "
+         "and random masks, 1/6 wrong operand type, all register types), block write (3/4 starting inside or just "
+         "before a register, words aimed at the bounds of overlapped registers), sanitise. 'corrupt': tables without "
+         "always-fail registers and with write callbacks everywhere; 40 rounds of out-of-band corruption of register "
+         "words (random, bound +-1, NaN/infinite patterns, all-ones) and gap words, each followed by sanitise. After "
+         "every step: whole storage, every register_get, touched marks, and the constraint of every "
+         "min/max/range/callback register. 2000+1000 units quick, 200000+50000 thorough. A signature is a unit; "
+         "evaluations counts steps.",
+    assumptions=["typed set / bit operations on registers in areas flagged read-only (write callback present): the "
+                 "statements do not rule; either outcome is accepted as long as its effect is consistent"])
+
 SAN_NOTE = ("Trusted: gcc 12 ASan/UBSan runtime, the harness' reference model, the fork-per-unit runner. "
             "Assumes little-endian x86-64; decides only the executions listed in the evidence file.")
 
 MANIFEST_TEXT = {
+    "C05": dict(
+        technique="runtime monitoring: random operation histories with a reference model carried along and compared after every step (image, values, touched marks) plus an explicit invariant assertion by the model's own decoder/evaluator; out-of-band corruption + sanitise rounds; ASan/UBSan",
+        text="The invariant is asserted by an independent evaluator after every one of several hundred thousand steps, "
+             "not just at the end, so a constraint bypass shows one step after it happened with the full history as "
+             "witness. Refused steps must leave every word unchanged, bit operations must change exactly the requested "
+             "bits, and after arbitrary corruption sanitise must reset exactly the undecodable or violating registers "
+             "and clear all touched marks.",
+        note=SAN_NOTE),
+    "C04": dict(
+        technique="runtime monitoring: generated and mutated table descriptions judged by an independent rule checker; post-conditions observed through the public API, storage images and the area/entry links; exact-size poisoned area[]/entry[]/storage under ASan/UBSan",
+        text="Hundreds of thousands of descriptions around the well-formedness boundary are initialised by the real "
+             "code; an independent rule checker decides acceptance, the violated rule and the offending index. After "
+             "a refusal every typed, block, iteration and sanitise entry point must report 'uninitialised'; after "
+             "success defaults must read back, all other words of memory-backed areas must be zero, and each area "
+             "must record exactly its contiguous run of registers. area[] and entry[] end exactly at their sentinel "
+             "with poison behind it.",
+        note=SAN_NOTE),
     "C03": dict(
         technique="runtime monitoring: window enumeration over generated tables against a flat address-space model; scripted iteration callbacks recording the handle sequence; exact-size poisoned read buffers under ASan/UBSan",
         text="Every window position including starts in holes, in gaps between registers, in the middle of multi-word "
